@@ -45,7 +45,7 @@ impl St {
 //@readonly ln_phi,pressure,clone
 //@on else PhaseEquilibrium::is_trivial_solution(self, &*trial) => trial.distinct = true;
 //@on? mutcall trial => trial.distinct = false; trial.min = false;
-//@on then error < scaled_tol => trial.min = trial.distinct; trial.tpd = tpd;
+//@on then $error < scaled_tol => trial.min = trial.distinct; trial.tpd = tpd;
     ensures
         // a verdict `Some(tpd)` only from the converged path, for a trial state that is not a copy, with the tpd in hand
         (r is Ok && r->Ok_0.0 is Some) ==> final(trial).min && final(trial).tpd == r->Ok_0.0->Some_0,
@@ -62,7 +62,7 @@ impl St {
 //@params &self
 //@keep i_trial: usize
 //@keep tpd: Fl
-//@track result: Res
+//@track @ret: Res
 //@track trial_state: St
 //@event new free
 //@event push args=0
@@ -77,7 +77,7 @@ impl St {
         // started ended with a verdict of its own: a failed minimisation is an error of the analysis, never "stable"
         r.0 is Ok ==> !r.1
 //@loop 0
-    invariant result.ok, !min_failed
+    invariant @ret.ok, !min_failed
 //@end
 
 /// contract of stability_analysis as discharged above (`stability_analysis_sk`), for its caller
